@@ -9,7 +9,7 @@ from fractions import Fraction
 
 from treelib import E, ExpressionParser, Undefined, close, exact_eval, gen_trees, holds, kind, realise, variables  # type: ignore
 
-LEAVES = [("c", 0), ("c", 2), ("c", -3), ("c", 0.5), ("c", 10**21), ("v", "x"), ("v", "y")]
+LEAVES = [("c", 0), ("c", 2), ("c", -3), ("c", 0.5), ("c", 10**21), ("c", 2.5e-05), ("v", "x"), ("v", "y")]
 ENVS = [{"x": Fraction(2), "y": Fraction(3)}, {"x": Fraction(-1, 2), "y": Fraction(5)}, {"x": Fraction(7), "y": Fraction(-3)}]
 UN = ["NegateExpression", "AbsExpression", "SgnExpression", "FactorialExpression"]
 
@@ -104,7 +104,7 @@ def main():
         descs += list(gen_trees(n, LEAVES, None, UN))
     sides = []
     for n in range(1, maxside + 1):
-        sides += list(gen_trees(n, LEAVES[:3] + LEAVES[5:], None, UN[:1]))
+        sides += list(gen_trees(n, LEAVES[:3] + LEAVES[6:], None, UN[:1]))
     descs += [("EqualExpression", l, r) for l in sides for r in sides]
     size = max(1, len(descs) // 128)
     chunks = [descs[i : i + size] for i in range(0, len(descs), size)]
